@@ -564,21 +564,32 @@ Definition end_build (wd : bytes) (sc : scopes) (pools : list (bytes * N))
    snd r_command ++ snd r_desc ++ snd r_deps ++ snd r_depfile ++ snd d ++ snd r_pool ++ snd p ++
    snd r_gen ++ snd r_restat ++ snd r_rsp ++ snd rs).
 
+(* getCurrentScope().lookupRule(name), else error + manifest->getPhonyRule(): (rule name, rule variables, errors) *)
+Definition resolve_rule (sc : scopes) (rname : bytes) : bytes * vars * list err :=
+  match lookup_rule sc rname with
+  | Some r => (rname, r, [])
+  | None => (nm_phony, [], [EUnknownRule])
+  end.
+
+(* the three components of the result of eval_paths *)
+Definition p_nodes (x : list node * list (bytes * bytes) * list err) : list node := fst (fst x).
+Definition p_map (x : list node * list (bytes * bytes) * list err) : list (bytes * bytes) := snd (fst x).
+Definition p_errs (x : list node * list (bytes * bytes) * list err) : list err := snd x.
+
 (* actOnBeginBuildDecl + the bindings + actOnEndBuildDecl *)
 Definition run_build (wd : bytes) (sc : scopes) (st : mstate)
            (outs : list bytes) (rname : bytes) (ex im oo : list bytes) (binds : list bitem) : mstate :=
-  let '(rn, rule, e0) :=
-    match lookup_rule sc rname with
-    | Some r => (rname, r, [])
-    | None => (nm_phony, [], [EUnknownRule])       (* manifest->getPhonyRule() *)
-    end in
-  let '(nouts, nodes1, e1) := eval_paths wd sc EEmptyOutput outs (m_nodes st) in
-  let '(nex, nodes2, e2) := eval_paths wd sc EEmptyInput ex nodes1 in
-  let '(nim, nodes3, e3) := eval_paths wd sc EEmptyInput im nodes2 in
-  let '(noo, nodes4, e4) := eval_paths wd sc EEmptyInput oo nodes3 in
-  let '(params, e5) := build_bindings sc binds [] in
-  let '(cmd, e6) := end_build wd sc (m_pools st) rn rule nouts nex nim noo params in
-  add_command (add_errors (with_nodes st nodes4) (e0 ++ e1 ++ e2 ++ e3 ++ e4 ++ e5 ++ e6)) cmd.
+  let rr := resolve_rule sc rname in
+  let po := eval_paths wd sc EEmptyOutput outs (m_nodes st) in
+  let pe := eval_paths wd sc EEmptyInput ex (p_map po) in
+  let pi := eval_paths wd sc EEmptyInput im (p_map pe) in
+  let pq := eval_paths wd sc EEmptyInput oo (p_map pi) in
+  let bb := build_bindings sc binds [] in
+  let eb := end_build wd sc (m_pools st) (fst (fst rr)) (snd (fst rr))
+                      (p_nodes po) (p_nodes pe) (p_nodes pi) (p_nodes pq) (fst bb) in
+  add_command (add_errors (with_nodes st (p_map pq))
+                          (snd rr ++ p_errs po ++ p_errs pe ++ p_errs pi ++ p_errs pq ++ snd bb ++ snd eb))
+              (fst eb).
 
 (* ---------------------------------------------------------------- pools *)
 
